@@ -27,6 +27,15 @@ CHECKS = {
        "short strings, JoinRequest/JoinAccept frames incl. wrong keys, comparing decoded fields AND the caller's buffer after every call.",
   note=COMMON_NOTE + "Premises: 16-byte outputs of cipher and MAC (proved for the Gallina AES/CMAC); enc_dec only for the JoinAccept round trip (checked on random blocks against RustCrypto and AES.v by C01's primitive comparison).",
   tech="machine-checked proof in Coq (parser/decryptor model vs declarative L2 spec; round trip) + differential correspondence incl. mutated frames", ref="6 C02"),
+ "C03": dict(
+  text="Coq theorems (Props/C03.v) for EVERY command table and EVERY byte string: the iterator model (the framing the CommandHandler derive generates + the fused "
+       "MacCommands iterator) yields a finite list: whole commands whose bytes form a prefix of the input, then at most one error, then nothing (fused), never an "
+       "out-of-bounds access, and length+1 steps always suffice (termination). The six command tables and the index ranges every payload accessor reads are REGENERATED "
+       "from /repo's source on every run by tools/rs2v/cmdtables.py, and a computed sweep proves every accessor range lies inside the length the framing guarantees. "
+       "Frame parsers: a successful parse puts every offset inside the buffer. Tied to the code by exhaustive sweeps of all strings up to 2 (quick) / 3 (thorough, 16.8 M x 6 sets) "
+       "bytes through all six iterators with every accessor called under catch_unwind, every CID x truncation point, mutated 255-byte streams, and the frame parsers.",
+  note=COMMON_NOTE + "The proc-macro itself is not verified: its generated behaviour is modelled generically (Model/MacCmd.v) and tied by the exhaustive differential run; its table input is tied by the translator (trusted python, ~200 lines). Memory safety of safe Rust is the compiler's business.",
+  tech="machine-checked proof in Coq (generic over command tables) + translator-regenerated tables/index sets + exhaustive short-string correspondence", ref="6 C03"),
  "C15": dict(
   text="Coq theorems: every driver's LDRO decision and the bit programmed into the chip equal the airtime calculator's, and that "
        "decision is 'on' exactly when 2^SF*10^6 >= 16384*BW (exact arithmetic) for all SF 5..12 x all 10 bandwidths. The models are "
